@@ -277,11 +277,17 @@ void file_server::normalize_path(std::string &path)
 			std::string::iterator min_pos = path.begin() + 1;
 			if(out > min_pos)
 				out --;
+			bool separator_found = false;
 			while(out > min_pos) {
 				out --;
-				if(*out == '/')
+				if(*out == '/') {
+					separator_found = true;
 					break;
+				}
 			}
+			// keep the separator that precedes the removed component
+			if(separator_found)
+				out ++;
 		}
 		else {
 			out = std::copy(start,end,out);
